@@ -1,7 +1,7 @@
 /-
 Model driver for C18 (modules). One request line = one scenario:
 
-  run (cfg <runImportTests 0|1> <hostTests 0|1> <exportAlias 0|1> <canonFile 0|1> <exportStrAlias 0|1> <exportsFirst 0|1> <wildRefresh 0|1>
+  run (cfg <runImportTests 0|1> <hostTests 0|1> <exportAlias 0|1> <canonFile 0|1> <exportStrAlias 0|1> <exportsFirst 0|1> <wildRefresh 0|1> <importCaptures 0|1>
        (stems (<name> <stem>)*) <prelude name>*) (fs <file>*) (ops <op>*)
   file  = (f <path> bad) | (f <path> <tact>*)
   path  = (p (<dir name>*) <name> <0|1 isDir>)
@@ -181,7 +181,7 @@ def fuelFor (files : List (Path × File)) : Nat := 6 * files.length + 8
 
 def handle (line : String) : String :=
   match parseLine line with
-  | [.atom cmd, .list (.atom "cfg" :: it :: ht :: al :: cf :: sa :: ef :: wr :: .list (.atom "stems" :: stems) :: pre),
+  | [.atom cmd, .list (.atom "cfg" :: it :: ht :: al :: cf :: sa :: ef :: wr :: ic :: .list (.atom "stems" :: stems) :: pre),
       .list (.atom "fs" :: files), .list (.atom "ops" :: ops)] =>
     let ghost := cmd == "rung"
     let stems := stems.filterMap (fun x => match x with
@@ -191,7 +191,7 @@ def handle (line : String) : String :=
     | some it, some ht, some al, some pre, some files, some ops =>
       let cfg : Cfg := { runImportTests := it == 1, hostTests := ht == 1, exportAlias := al == 1,
                          canonFile := cf.nat? == some 1, exportStrAlias := sa.nat? == some 1,
-                         exportsFirst := ef.nat? == some 1, wildRefresh := wr.nat? == some 1,
+                         exportsFirst := ef.nat? == some 1, wildRefresh := wr.nat? == some 1, importCaptures := ic.nat? == some 1,
                          stem := fun n => ((stems.find? (fun x => x.1 == n)).map (·.2)).getD n,
                          prelude := fun n => if pre.contains n then some (if n ≥ 90 ∧ n ≤ 92 then .native n else .core n) else none }
       let fs := mkFS files
